@@ -20,33 +20,39 @@ from . import boot
 mon = sys.monitoring
 TOOL = mon.DEBUGGER_ID
 BIG = 10**12
-_STATE = {"armed": False, "codes": 0, "focus_files": ("ruler.py",), "focus_codes": set()}
+_STATE = {"armed": False, "codes": 0, "focus_files": ("ruler.py",), "focus_codes": set(), "mut_codes": set(), "mut_names": {}}
+_MUTATORS = {"clear", "pop", "popitem", "setdefault", "update", "append", "add", "remove", "discard", "insert", "extend", "appendleft", "popleft", "move_to_end", "sort", "reverse"}
 
 
 class Abort(BaseException):
     pass
 
 
+_GLOBALS_OF: dict = {}
+
+
 def _code_objects(root: str):
     seen = set()
     out = []
 
-    def add(code):
+    def add(code, g=None):
         if not isinstance(code, types.CodeType) or id(code) in seen:
             return
         if not code.co_filename.startswith(root):
             return
         seen.add(id(code))
         out.append(code)
+        if g is not None:
+            _GLOBALS_OF[code] = g
         for c in code.co_consts:
-            add(c)
+            add(c, g)
 
     for name, mod in list(sys.modules.items()):
         if mod is None or not (name == "markdown_it" or name.startswith("markdown_it.")):
             continue
         for obj in list(vars(mod).values()):
             if isinstance(obj, types.FunctionType):
-                add(obj.__code__)
+                add(obj.__code__, obj.__globals__)
             elif isinstance(obj, type):
                 for v in list(vars(obj).values()):
                     f = v
@@ -55,14 +61,14 @@ def _code_objects(root: str):
                     if isinstance(v, property):
                         for g in (v.fget, v.fset, v.fdel):
                             if g is not None:
-                                add(g.__code__)
+                                add(g.__code__, getattr(g, "__globals__", None))
                         continue
                     if hasattr(f, "__wrapped__"):
                         w = f.__wrapped__
                         if isinstance(w, types.FunctionType):
-                            add(w.__code__)
+                            add(w.__code__, w.__globals__)
                     if isinstance(f, types.FunctionType):
-                        add(f.__code__)
+                        add(f.__code__, f.__globals__)
     return out
 
 
@@ -86,8 +92,17 @@ def arm() -> int:
     for c in codes:
         mon.set_local_events(TOOL, c, mon.events.INSTRUCTION)
         # code that writes module-level state is a focus of the single-switch sweep, like rule management
-        if any(ins.opname in ("STORE_GLOBAL", "DELETE_GLOBAL") for ins in dis.get_instructions(c)):
+        ins_list = list(dis.get_instructions(c))
+        if any(ins.opname in ("STORE_GLOBAL", "DELETE_GLOBAL") for ins in ins_list):
             _STATE["focus_codes"].add(c)
+        # code that can mutate a module-level container (a memo, a registry): it loads a global that is bound to a
+        # mutable container and holds a subscript store/delete or a call of a mutating method
+        g = _GLOBALS_OF.get(c)
+        if g is not None:
+            names = [ins.argval for ins in ins_list if ins.opname == "LOAD_GLOBAL" and isinstance(g.get(ins.argval), (dict, list, set, bytearray)) or (ins.opname == "LOAD_GLOBAL" and type(g.get(ins.argval)).__name__ in ("deque", "OrderedDict", "defaultdict", "Counter"))]
+            if names and any(ins.opname in ("STORE_SUBSCR", "DELETE_SUBSCR") or (ins.opname in ("LOAD_ATTR", "LOAD_METHOD") and ins.argval in _MUTATORS) for ins in ins_list):
+                _STATE["mut_codes"].add(c)
+                _STATE["mut_names"][f"{c.co_filename[len(root) + 1:]}:{c.co_name}"] = sorted(set(names))
     _STATE["armed"] = True
     _STATE["codes"] = len(codes)
     return len(codes)
@@ -109,6 +124,7 @@ class Sched:
         self.switch_log: list = []
         self.record_focus = record_focus
         self.focus: list[int] = []  # instruction indices of thread 0 lying in rule-management code
+        self.mutfocus: list[int] = []  # ... lying in code that can mutate a module-level container
 
     def _next_quantum(self) -> int:
         return self.plan.pop(0) if self.plan else BIG
@@ -121,8 +137,11 @@ class Sched:
         self.count[i] = c
         if c > self.budget:
             raise Abort()
-        if self.record_focus and i == 0 and (code.co_filename.endswith(_STATE["focus_files"]) or code in _STATE["focus_codes"]):
-            self.focus.append(c)
+        if self.record_focus and i == 0:
+            if code.co_filename.endswith(_STATE["focus_files"]) or code in _STATE["focus_codes"]:
+                self.focus.append(c)
+            if code in _STATE["mut_codes"]:
+                self.mutfocus.append(c)
         self.quantum_left -= 1
         if self.quantum_left <= 0:
             self._switch(i)
